@@ -293,6 +293,8 @@ def run_property(ctx, prop):
     for mc in prop.get('mc', []):
         if mc.get('tiers') and ctx.tier not in mc['tiers']:
             continue
+        if os.environ.get('VERIF_DEV_SKIP_MC'):   # development aid only; never set by registered commands
+            continue
         run_mc(ctx, mc)
     driver = None
     viol = []
